@@ -190,6 +190,8 @@ pub open spec fn wf_parts(sl: Map<SliceIndex, ReconstructedSlice>, sh: Map<Slice
     // W9: a slice with a row of stored shreds has a cached commitment (the cache is the larger record: it also remembers slices
     //     whose only shreds were dropped - finding F35)
     &&& forall|k: SliceIndex| #[trigger] sh.contains_key(k) ==> cc.contains_key(k)
+    // W10: a reconstructed slice was reconstructed from stored shreds (which are kept)
+    &&& forall|k: SliceIndex| #[trigger] sl.contains_key(k) ==> sh.contains_key(k)
 }
 
 impl BlockData {
@@ -204,6 +206,12 @@ impl BlockData {
         self.commitment_cache@.map_values(|p: (SliceCommitment, Signature)| p.0)
     }
     pub open spec fn wf(&self) -> bool { wf_parts(self.slices@, self.shreds@, self.commitment_cache@, self.last_slice, self.tree_leaves()) }
+    // every slice up to the one marked last has been reconstructed
+    pub open spec fn all_there(&self) -> bool {
+        self.last_slice matches Some(l) && self.slices@.len() == l.0 + 1
+    }
+    // completeness, as an invariant across calls ("in any order"): once every slice is there the block has been built
+    pub open spec fn complete_inv(&self) -> bool { self.all_there() ==> self.completed is Some }
     pub open spec fn last_consistent(l: SliceIndex, si: SliceIndex, is_last: bool) -> bool {
         (si.0 < l.0 && !is_last) || (si == l && is_last)
     }
@@ -272,6 +280,19 @@ pub proof fn lemma_pigeon(dom: Set<SliceIndex>, l: int)
     lemma_idx_upto(l);
     if !dom.contains(SliceIndex(0)) {
         let rest = idx_upto(l).remove(SliceIndex(0));
+        assert(dom.subset_of(rest));
+        vstd::set_lib::lemma_len_subset(dom, rest);
+    }
+}
+
+// ... in fact every index up to l
+pub proof fn lemma_pigeon_at(dom: Set<SliceIndex>, l: int, j: int)
+    requires 0 <= j <= l < usize::MAX, dom.finite(), dom.len() == l + 1, forall|k: SliceIndex| #[trigger] dom.contains(k) ==> k.0 <= l,
+    ensures dom.contains(SliceIndex(j as usize))
+{
+    lemma_idx_upto(l);
+    if !dom.contains(SliceIndex(j as usize)) {
+        let rest = idx_upto(l).remove(SliceIndex(j as usize));
         assert(dom.subset_of(rest));
         vstd::set_lib::lemma_len_subset(dom, rest);
     }
@@ -729,6 +750,9 @@ ensures
             && ((final(self).completed->0).1.parent, (final(self).completed->0).1.parent_hash) == info.parent),
         // [C13.nothing_announced_on_error_or_incomplete]
         !(r is Complete) ==> final(self).completed == old(self).completed && final(self).slices@ == old(self).slices@,
+        // [C13.block_is_built_as_soon_as_every_slice_is_there] nothing is left undone: no action only when the block is complete already,
+        // the last slice is not known yet, or a slice up to it is still missing
+        r is NoAction ==> old(self).completed is Some || !old(self).all_there(),
         // stored shreds, commitments and the last-slice marker are not touched by block reconstruction
         final(self).shreds == old(self).shreds && final(self).commitment_cache == old(self).commitment_cache
             && final(self).last_slice == old(self).last_slice && final(self).slot == old(self).slot,
@@ -866,6 +890,13 @@ requires
 ensures
         final(self).wf(),
         final(self).slot == old(self).slot,
+        // [C13.block_is_built_as_soon_as_every_slice_is_there] whichever shred arrives last, of whichever slice: when this call leaves
+        // every slice up to the last one reconstructed, it has built (and announced) the block - or reported an error
+        // (not claimed for one case this unit cannot exclude: the last-slice marker arriving on a shred of a slice that was already
+        //  reconstructed without it - impossible for shreds under one commitment, the flag being part of what the leader signs, C12)
+        (old(self).complete_inv() && r is Ok
+            && (old(self).last_slice is Some || !old(self).slices@.contains_key(shred.spec_payload().header.slice_index)))
+            ==> final(self).complete_inv(),
         // [C12.second_commitment_for_a_slice_is_equivocation C13.conflicting_slices_are_equivocation]
         // whatever else the block data holds (also after the block is complete)
         (old(self).cc().contains_key(shred.spec_payload().header.slice_index)
@@ -966,6 +997,17 @@ before `let is_first_shred = verif_shreds_is_empty(&self.shreds);`
             assert(b.wf());
             assert(b.commitment_cache == a.commitment_cache);
             assert(b.last_slice matches Some(l) ==> slice_index.0 <= l.0);
+            // completeness so far: setting the marker on a slice that is not reconstructed yet cannot complete the set of slices
+            if pre.complete_inv() && (pre.last_slice is Some || !pre.slices@.contains_key(slice_index)) {
+                if pre.last_slice is None && is_last {
+                    assert(!b.slices@.contains_key(slice_index));
+                    if b.slices@.len() == slice_index.0 + 1 { lemma_pigeon_at(b.slices@.dom(), slice_index.0 as int, slice_index.0 as int); }
+                    assert(!b.all_there());
+                } else {
+                    assert(b.slices@ == pre.slices@ && b.last_slice == pre.last_slice && b.completed == pre.completed);
+                }
+                assert(b.complete_inv());
+            }
         }
 after `let slice_shreds = verif_shreds_entry(&mut self.shreds, slice_index);`
         let ghost rowb = *slice_shreds;
